@@ -114,20 +114,21 @@ pub proof fn lemma_erase_eq_terms<'a>(t1: Term<'a>, t2: Term<'a>)
 
 // the children of a term whose free variables are below c have theirs below c (+ the binders crossed)
 pub proof fn lemma_term_kids_closed<'a>(t: Term<'a>, c: nat)
-    requires s_closed_at(view(t), c), !(t.variant is Unifier)
+    requires s_cl(view(t), c), !(t.variant is Unifier)
     ensures
         match t.variant {
             Variable(_, i) => i < c,
-            Lambda(_, _, x, y) | Pi(_, _, x, y) => s_closed_at(view(*x), c) && s_closed_at(view(*y), c + 1),
+            Lambda(_, _, x, y) | Pi(_, _, x, y) => s_cl(view(*x), c) && s_cl(view(*y), c + 1),
             Application(x, y) | Sum(x, y) | Difference(x, y) | Product(x, y) | Quotient(x, y)
             | LessThan(x, y) | LessThanOrEqualTo(x, y) | EqualTo(x, y) | GreaterThan(x, y) | GreaterThanOrEqualTo(x, y)
-                => s_closed_at(view(*x), c) && s_closed_at(view(*y), c),
-            Negation(x) => s_closed_at(view(*x), c),
-            If(x, y, z) => s_closed_at(view(*x), c) && s_closed_at(view(*y), c) && s_closed_at(view(*z), c),
-            Let(defs, body) => s_closed_at(view(*body), c + defs@.len()) && forall|j: int| 0 <= j < defs@.len() ==> s_closed_at(view(*(#[trigger] defs@[j]).1), c + defs@.len()) && s_closed_at(view(*defs@[j].2), c + defs@.len()),
+                => s_cl(view(*x), c) && s_cl(view(*y), c),
+            Negation(x) => s_cl(view(*x), c),
+            If(x, y, z) => s_cl(view(*x), c) && s_cl(view(*y), c) && s_cl(view(*z), c),
+            Let(defs, body) => s_cl(view(*body), c + defs@.len()) && forall|j: int| 0 <= j < defs@.len() ==> s_cl(view(*(#[trigger] defs@[j]).1), c + defs@.len()) && s_cl(view(*defs@[j].2), c + defs@.len()),
             _ => true,
         },
 {
+    reveal(s_cl);
     broadcast use group_fv;
     match t.variant {
         Variable(_, i) => {
@@ -138,10 +139,10 @@ pub proof fn lemma_term_kids_closed<'a>(t: Term<'a>, c: nat)
             let kids = kids_of(t);
             let m = defs@.len();
             lemma_closed_kids(Kind::Let, kids, c);
-            assert(s_closed_at(kids[2 * m as int], c + binds(Kind::Let, kids.len(), 2 * m as int)));
-            assert forall|j: int| 0 <= j < defs@.len() implies s_closed_at(view(*(#[trigger] defs@[j]).1), c + m) && s_closed_at(view(*defs@[j].2), c + m) by {
-                assert(s_closed_at(kids[j], c + binds(Kind::Let, kids.len(), j)));
-                assert(s_closed_at(kids[j + m], c + binds(Kind::Let, kids.len(), j + m)));
+            assert(s_cl(kids[2 * m as int], c + binds(Kind::Let, kids.len(), 2 * m as int)));
+            assert forall|j: int| 0 <= j < defs@.len() implies s_cl(view(*(#[trigger] defs@[j]).1), c + m) && s_cl(view(*defs@[j].2), c + m) by {
+                assert(s_cl(kids[j], c + binds(Kind::Let, kids.len(), j)));
+                assert(s_cl(kids[j + m], c + binds(Kind::Let, kids.len(), j + m)));
             }
         }
         _ => {
@@ -149,110 +150,207 @@ pub proof fn lemma_term_kids_closed<'a>(t: Term<'a>, c: nat)
             let kids = kids_of(t);
             assert(view(t) == STerm::Node(k, kids));
             lemma_closed_kids(k, kids, c);
-            if kids.len() >= 1 { assert(s_closed_at(kids[0], c + binds(k, kids.len(), 0))); }
-            if kids.len() >= 2 { assert(s_closed_at(kids[1], c + binds(k, kids.len(), 1))); }
-            if kids.len() >= 3 { assert(s_closed_at(kids[2], c + binds(k, kids.len(), 2))); }
+            if kids.len() >= 1 { assert(s_cl(kids[0], c + binds(k, kids.len(), 0))); }
+            if kids.len() >= 2 { assert(s_cl(kids[1], c + binds(k, kids.len(), 1))); }
+            if kids.len() >= 3 { assert(s_cl(kids[2], c + binds(k, kids.len(), 2))); }
         }
     }
 }
 
 // whatever m reduces to, t reduces to (used before a tail call whose result is not named)
-pub proof fn lemma_rr_trans_all(t: STerm, m: STerm)
-    requires s_rr(t, m)
-    ensures forall|u: STerm| #[trigger] s_rr(m, u) ==> s_rr(t, u)
+pub proof fn lemma_rr_trans_all(g: GCtx, t: STerm, m: STerm)
+    requires s_rr(g, t, m)
+    ensures forall|u: STerm| #[trigger] s_rr(g, m, u) ==> s_rr(g, t, u)
 {
-    assert forall|u: STerm| #[trigger] s_rr(m, u) implies s_rr(t, u) by { lemma_rr_trans(t, m, u); }
+    assert forall|u: STerm| #[trigger] s_rr(g, m, u) implies s_rr(g, t, u) by { lemma_rr_trans(g, t, m, u); }
 }
 
 // the arithmetic / comparison arms of the normaliser: both operands are normalised, then the primitive fires if it can
-pub proof fn lemma_norm_binary(k: Kind, a: STerm, b: STerm, a2: STerm, b2: STerm)
-    requires is_binary(k), k != Kind::App, s_rr(a, a2), s_rr(b, b2), s_whnf(a2), s_whnf(b2)
+pub proof fn lemma_norm_binary(g: GCtx, k: Kind, a: STerm, b: STerm, a2: STerm, b2: STerm, l: nat)
+    requires is_binary(k), k != Kind::App, s_rr(g, a, a2), s_rr(g, b, b2), s_whnf(g, a2), s_whnf(g, b2),
+        s_ok(a2, 0, BOUND() as nat), s_ok(b2, 0, BOUND() as nat), s_cl(a2, l), s_cl(b2, l)
     ensures
-        s_prim(k, a2, b2) is Some ==> s_rr(STerm::Node(k, s2(a, b)), s_prim(k, a2, b2).unwrap()) && s_whnf(s_prim(k, a2, b2).unwrap()),
-        s_prim(k, a2, b2) is None ==> s_rr(STerm::Node(k, s2(a, b)), STerm::Node(k, s2(a2, b2))) && s_whnf(STerm::Node(k, s2(a2, b2))),
+        s_prim(k, a2, b2) is Some ==> s_ok(s_prim(k, a2, b2).unwrap(), 0, BOUND() as nat) && s_cl(s_prim(k, a2, b2).unwrap(), l),
+        s_ok(STerm::Node(k, s2(a2, b2)), 0, BOUND() as nat) && s_cl(STerm::Node(k, s2(a2, b2)), l),
+        s_prim(k, a2, b2) is Some ==> s_rr(g, STerm::Node(k, s2(a, b)), s_prim(k, a2, b2).unwrap()) && s_whnf(g, s_prim(k, a2, b2).unwrap()),
+        s_prim(k, a2, b2) is None ==> s_rr(g, STerm::Node(k, s2(a, b)), STerm::Node(k, s2(a2, b2))) && s_whnf(g, STerm::Node(k, s2(a2, b2))),
 {
-    lemma_rr_cong2(k, a, b, a2, b2);
-    lemma_whnf2(k, a2, b2);
+    reveal(s_cl);
+    broadcast use {group_ok, group_fv};
+    assert(binds(k, 2, 0) == 0 && binds(k, 2, 1) == 0);
+    lemma_rr_cong2(g, k, a, b, a2, b2);
+    lemma_whnf2(g, k, a2, b2);
     if s_prim(k, a2, b2) is Some {
-        lemma_whnf_value(s_prim(k, a2, b2).unwrap());
-        lemma_root_prim(k, a2, b2, s_prim(k, a2, b2).unwrap());
-        lemma_rr_trans(STerm::Node(k, s2(a, b)), STerm::Node(k, s2(a2, b2)), s_prim(k, a2, b2).unwrap());
+        lemma_whnf_value(g, s_prim(k, a2, b2).unwrap());
+        lemma_root_prim(g, k, a2, b2, s_prim(k, a2, b2).unwrap());
+        lemma_rr_trans(g, STerm::Node(k, s2(a, b)), STerm::Node(k, s2(a2, b2)), s_prim(k, a2, b2).unwrap());
     }
 }
 
-pub proof fn lemma_norm_neg(a: STerm, a2: STerm)
-    requires s_rr(a, a2), s_whnf(a2)
+pub proof fn lemma_norm_neg(g: GCtx, a: STerm, a2: STerm, l: nat)
+    requires s_rr(g, a, a2), s_whnf(g, a2), s_ok(a2, 0, BOUND() as nat), s_cl(a2, l)
     ensures
-        lit_of(a2) is Some ==> s_rr(STerm::Node(Kind::Neg, s1(a)), s_lit(-lit_of(a2).unwrap())) && s_whnf(s_lit(-lit_of(a2).unwrap())),
-        lit_of(a2) is None ==> s_rr(STerm::Node(Kind::Neg, s1(a)), STerm::Node(Kind::Neg, s1(a2))) && s_whnf(STerm::Node(Kind::Neg, s1(a2))),
+        lit_of(a2) is Some ==> s_ok(s_lit(-lit_of(a2).unwrap()), 0, BOUND() as nat) && s_cl(s_lit(-lit_of(a2).unwrap()), l),
+        s_ok(STerm::Node(Kind::Neg, s1(a2)), 0, BOUND() as nat) && s_cl(STerm::Node(Kind::Neg, s1(a2)), l),
+        lit_of(a2) is Some ==> s_rr(g, STerm::Node(Kind::Neg, s1(a)), s_lit(-lit_of(a2).unwrap())) && s_whnf(g, s_lit(-lit_of(a2).unwrap())),
+        lit_of(a2) is None ==> s_rr(g, STerm::Node(Kind::Neg, s1(a)), STerm::Node(Kind::Neg, s1(a2))) && s_whnf(g, STerm::Node(Kind::Neg, s1(a2))),
 {
-    lemma_rr_cong1(Kind::Neg, a, a2);
-    lemma_whnf1(a2);
+    reveal(s_cl);
+    broadcast use {group_ok, group_fv};
+    lemma_rr_cong1(g, Kind::Neg, a, a2);
+    lemma_whnf1(g, a2);
     if lit_of(a2) is Some {
-        lemma_whnf_value(s_lit(-lit_of(a2).unwrap()));
-        lemma_root_neg(a2, lit_of(a2).unwrap());
-        lemma_rr_trans(STerm::Node(Kind::Neg, s1(a)), STerm::Node(Kind::Neg, s1(a2)), s_lit(-lit_of(a2).unwrap()));
+        lemma_whnf_value(g, s_lit(-lit_of(a2).unwrap()));
+        lemma_root_neg(g, a2, lit_of(a2).unwrap());
+        lemma_rr_trans(g, STerm::Node(Kind::Neg, s1(a)), STerm::Node(Kind::Neg, s1(a2)), s_lit(-lit_of(a2).unwrap()));
     }
 }
 
-pub proof fn lemma_norm_if(c: STerm, a: STerm, b: STerm, c2: STerm)
-    requires s_rr(c, c2), s_whnf(c2)
+pub proof fn lemma_norm_if(g: GCtx, c: STerm, a: STerm, b: STerm, c2: STerm, l: nat)
+    requires s_rr(g, c, c2), s_whnf(g, c2),
+        s_ok(c2, 0, BOUND() as nat), s_ok(a, 0, BOUND() as nat), s_ok(b, 0, BOUND() as nat), s_cl(c2, l), s_cl(a, l), s_cl(b, l)
     ensures
-        c2 is Node && c2->Node_0 == Kind::True ==> forall|u: STerm| #[trigger] s_rr(a, u) ==> s_rr(STerm::Node(Kind::If, s3(c, a, b)), u),
-        c2 is Node && c2->Node_0 == Kind::False ==> forall|u: STerm| #[trigger] s_rr(b, u) ==> s_rr(STerm::Node(Kind::If, s3(c, a, b)), u),
+        s_ok(STerm::Node(Kind::If, s3(c2, a, b)), 0, BOUND() as nat) && s_cl(STerm::Node(Kind::If, s3(c2, a, b)), l),
+        c2 is Node && c2->Node_0 == Kind::True ==> forall|u: STerm| #[trigger] s_rr(g, a, u) ==> s_rr(g, STerm::Node(Kind::If, s3(c, a, b)), u),
+        c2 is Node && c2->Node_0 == Kind::False ==> forall|u: STerm| #[trigger] s_rr(g, b, u) ==> s_rr(g, STerm::Node(Kind::If, s3(c, a, b)), u),
         !(c2 is Node && (c2->Node_0 == Kind::True || c2->Node_0 == Kind::False)) ==>
-            s_rr(STerm::Node(Kind::If, s3(c, a, b)), STerm::Node(Kind::If, s3(c2, a, b))) && s_whnf(STerm::Node(Kind::If, s3(c2, a, b))),
+            s_rr(g, STerm::Node(Kind::If, s3(c, a, b)), STerm::Node(Kind::If, s3(c2, a, b))) && s_whnf(g, STerm::Node(Kind::If, s3(c2, a, b))),
 {
+    reveal(s_cl);
+    broadcast use {group_ok, group_fv};
     let t = STerm::Node(Kind::If, s3(c, a, b));
     let t2 = STerm::Node(Kind::If, s3(c2, a, b));
-    lemma_rr_refl(a);
-    lemma_rr_refl(b);
-    lemma_rr_cong3(Kind::If, c, a, b, c2, a, b);
-    lemma_whnf3(c2, a, b);
-    lemma_root_if(c2, a, b);
+    lemma_rr_refl(g, a);
+    lemma_rr_refl(g, b);
+    lemma_rr_cong3(g, Kind::If, c, a, b, c2, a, b);
+    lemma_whnf3(g, c2, a, b);
+    lemma_root_if(g, c2, a, b);
     if c2 is Node && c2->Node_0 == Kind::True {
-        lemma_rr_trans(t, t2, a);
-        lemma_rr_trans_all(t, a);
+        lemma_rr_trans(g, t, t2, a);
+        lemma_rr_trans_all(g, t, a);
     }
     if c2 is Node && c2->Node_0 == Kind::False {
-        lemma_rr_trans(t, t2, b);
-        lemma_rr_trans_all(t, b);
+        lemma_rr_trans(g, t, t2, b);
+        lemma_rr_trans_all(g, t, b);
     }
 }
 
 // the application arm: the head is normalised; a function is applied to the UNEVALUATED argument
-pub proof fn lemma_norm_app(f: STerm, a: STerm, f2: STerm, r: STerm)
-    requires s_rr(f, f2), s_whnf(f2)
+pub proof fn lemma_norm_app(g: GCtx, f: STerm, a: STerm, f2: STerm, r: STerm, l: nat)
+    requires s_rr(g, f, f2), s_whnf(g, f2), s_ok(f2, 0, BOUND() as nat), s_ok(a, 0, BOUND() as nat), s_cl(f2, l), s_cl(a, l)
     ensures
-        s_prim(Kind::App, f2, a) == Some(r) ==> forall|u: STerm| #[trigger] s_rr(r, u) ==> s_rr(STerm::Node(Kind::App, s2(f, a)), u),
-        s_prim(Kind::App, f2, a) is None ==> s_rr(STerm::Node(Kind::App, s2(f, a)), STerm::Node(Kind::App, s2(f2, a))) && s_whnf(STerm::Node(Kind::App, s2(f2, a))),
+        s_ok(STerm::Node(Kind::App, s2(f2, a)), 0, BOUND() as nat) && s_cl(STerm::Node(Kind::App, s2(f2, a)), l),
+        s_prim(Kind::App, f2, a) == Some(r) ==> forall|u: STerm| #[trigger] s_rr(g, r, u) ==> s_rr(g, STerm::Node(Kind::App, s2(f, a)), u),
+        s_prim(Kind::App, f2, a) is None ==> s_rr(g, STerm::Node(Kind::App, s2(f, a)), STerm::Node(Kind::App, s2(f2, a))) && s_whnf(g, STerm::Node(Kind::App, s2(f2, a))),
 {
+    reveal(s_cl);
+    broadcast use {group_ok, group_fv};
     let t = STerm::Node(Kind::App, s2(f, a));
     let t2 = STerm::Node(Kind::App, s2(f2, a));
-    lemma_rr_refl(a);
-    lemma_rr_cong2(Kind::App, f, a, f2, a);
-    lemma_whnf2(Kind::App, f2, a);
+    lemma_rr_refl(g, a);
+    lemma_rr_cong2(g, Kind::App, f, a, f2, a);
+    lemma_whnf2(g, Kind::App, f2, a);
     if s_prim(Kind::App, f2, a) == Some(r) {
-        lemma_root_prim(Kind::App, f2, a, r);
-        lemma_rr_trans(t, t2, r);
-        lemma_rr_trans_all(t, r);
+        lemma_root_prim(g, Kind::App, f2, a, r);
+        lemma_rr_trans(g, t, t2, r);
+        lemma_rr_trans_all(g, t, r);
     }
+}
+
+// raising a term closed at cc by k gives a term closed at cc + k
+pub proof fn lemma_raise_closed_n(t: STerm, cc: nat, k: nat)
+    requires s_hole_free(t), s_cl(t, cc),
+    ensures s_shift(t, 0, k as int) == Some(s_raise(t, k)), s_hole_free(s_raise(t, k)), s_cl(s_raise(t, k), cc + k),
+{
+    reveal(s_cl);
+    law_shift_up_total(t, 0, k);
+    law_shift_some_hole_free(t, 0, k as int);
+    let r = s_raise(t, k);
+    assert(r == s_shift(t, 0, k as int).unwrap());
+    assert forall|x: nat| !#[trigger] s_has_fv(r, cc + k, x) by {
+        law_fv_cut(r, 0, cc + k, x);
+        law_fv_shift(t, 0, 0, k, x + cc + k);
+        law_fv_cut(t, 0, cc, x);
+        assert(((x + cc + k) - k) as nat == x + cc);
+    }
+}
+
+// the variable arm of the normaliser: what the context entry of variable `index` says
+pub proof fn lemma_delta_facts<'a>(ctx: Seq<Option<(Rc<Term<'a>>, usize)>>, index: nat)
+    requires ctx_ok(ctx), index < ctx.len(), ctx.len() < HB()
+    ensures
+        ctx[ctx.len() - 1 - index] is None ==> s_delta(ctx_view(ctx), index) is None,
+        ctx[ctx.len() - 1 - index] is Some ==> ({
+            let d = view(*ctx[ctx.len() - 1 - index]->Some_0.0);
+            let off = ctx[ctx.len() - 1 - index]->Some_0.1;
+            let amount = (index + 1 - off) as nat;
+            &&& off <= index + 1
+            &&& s_ok(d, 0, BOUND() as nat)
+            &&& s_shift(d, 0, amount as int) == Some(s_raise(d, amount))
+            &&& s_delta(ctx_view(ctx), index) == Some(s_raise(d, amount))
+            &&& s_ok(s_raise(d, amount), 0, BOUND() as nat)
+            &&& s_cl(s_raise(d, amount), ctx.len())
+            &&& forall|u: STerm| #[trigger] s_rr(ctx_view(ctx), s_raise(d, amount), u) ==> s_rr(ctx_view(ctx), STerm::Var(index), u)
+        }),
+{
+    reveal(s_cl);
+    reveal(ctx_view);
+    reveal(ctx_ok);
+    let g = ctx_view(ctx);
+    let p = ctx.len() - 1 - index;
+    assert(g.len() == ctx.len());
+    assert(g[p] == match ctx[p] { Some((d, off)) => Some((view(*d), off as nat)), None => None::<(STerm, nat)> });
+    if ctx[p] is Some {
+        let d = vr(&ctx[p]->Some_0.0);
+        let off = ctx[p]->Some_0.1;
+        let amount = (index + 1 - off) as nat;
+        assert(p + off <= ctx.len());
+        lemma_ok_weaken(d, 0, HB() as nat, 0, BOUND() as nat);
+        lemma_ok_hole_free(d, 0, HB() as nat);
+        lemma_raise_closed_n(d, (p + off) as nat, amount);
+        lemma_ok_shift(d, 0, HB() as nat, 0, amount);
+        lemma_ok_weaken(s_raise(d, amount), 0, (HB() + amount) as nat, 0, BOUND() as nat);
+        assert((p + off + amount) as nat == ctx.len());
+        lemma_root_delta(g, index, s_raise(d, amount));
+        lemma_rr_trans_all(g, STerm::Var(index), s_raise(d, amount));
+    }
+}
+
+// pushing a plain binder onto the real context
+pub proof fn lemma_ctx_push_none<'a>(ctx: Seq<Option<(Rc<Term<'a>>, usize)>>)
+    requires ctx_ok(ctx)
+    ensures
+        ctx_ok(ctx.push(None)),
+        ctx_view(ctx.push(None)) == g_ext(ctx_view(ctx), 1),
+        ctx.push(None).drop_last() == ctx,
+{
+    reveal(ctx_view);
+    reveal(ctx_ok);
+    let c2 = ctx.push(None);
+    assert forall|p: int| 0 <= p < c2.len() implies match #[trigger] c2[p] {
+        Some((d, off)) => p + off <= c2.len() && s_ok(view(*d), 0, HB() as nat) && s_cl(view(*d), (p + off) as nat),
+        None => true,
+    } by {
+        if p < ctx.len() { assert(c2[p] == ctx[p]); }
+    }
+    assert(ctx_view(c2) =~= g_ext(ctx_view(ctx), 1));
+    assert(c2.drop_last() =~= ctx);
 }
 
 // beta reduction keeps the overflow guard (with room) and never frees a variable
 pub proof fn lemma_beta_facts(body: STerm, arg: STerm, l: nat)
-    requires s_ok(body, 1, HB() as nat), s_ok(arg, 0, HB() as nat), s_closed_at(body, l + 1), s_closed_at(arg, l)
+    requires s_ok(body, 0, HB() as nat), s_ok(arg, 0, HB() as nat), s_cl(body, l + 1), s_cl(arg, l)
     ensures
         s_ok(body, 0, BOUND() as nat), s_ok(arg, 0, BOUND() as nat),
         s_ok(s_open(body, 0, arg, 0), 0, BOUND() as nat),
-        s_closed_at(s_open(body, 0, arg, 0), l),
+        s_cl(s_open(body, 0, arg, 0), l),
 {
-    lemma_ok_weaken(body, 1, HB() as nat, 0, HB() as nat);
-    lemma_ok_weaken(body, 1, HB() as nat, 0, BOUND() as nat);
+    reveal(s_cl);
+    lemma_ok_weaken(body, 0, HB() as nat, 0, BOUND() as nat);
     lemma_ok_weaken(arg, 0, HB() as nat, 0, BOUND() as nat);
     lemma_ok_open(body, 0, HB() as nat, 0, arg, HB() as nat, 0, 0);
     lemma_ok_weaken(s_open(body, 0, arg, 0), 0, (3 * HB()) as nat, 0, BOUND() as nat);
-    lemma_ok_hole_free(body, 1, HB() as nat);
+    lemma_ok_hole_free(body, 0, HB() as nat);
     lemma_ok_hole_free(arg, 0, HB() as nat);
     lemma_open_closed(body, 0, arg, l);
 }
@@ -271,7 +369,7 @@ pub proof fn lemma_unfold_facts(a: STerm, d: STerm, m: nat, l: nat)
     requires
         m >= 1, m < HB(), l < HB(),
         s_ok(a, 0, HB() as nat), s_ok(d, 0, HB() as nat),
-        s_closed_at(a, l + m), s_closed_at(d, l + m),
+        s_cl(a, l + m), s_cl(d, l + m),
     ensures
         ({
             let v = STerm::Var(0);
@@ -286,11 +384,12 @@ pub proof fn lemma_unfold_facts(a: STerm, d: STerm, m: nat, l: nat)
             &&& s_ok(a_s, m, BOUND() as nat) && s_ok(a_s, 0, BOUND() as nat)
             &&& s_ok(d_s, m, BOUND() as nat) && s_ok(d_s, 0, BOUND() as nat)
             &&& s_ok(v, 0, BOUND() as nat)
-            &&& s_ok(w, 0, BOUND() as nat) && s_closed_at(w, (l + m - 1) as nat)
+            &&& s_ok(w, 0, BOUND() as nat) && s_cl(w, (l + m - 1) as nat)
             &&& s_ok(d, (m - 1) as nat, BOUND() as nat)
-            &&& s_ok(u, 0, BOUND() as nat) && s_closed_at(u, (l + m - 1) as nat)
+            &&& s_ok(u, 0, BOUND() as nat) && s_cl(u, (l + m - 1) as nat)
         }),
 {
+    reveal(s_cl);
     let hb = HB() as nat;
     let bb = BOUND() as nat;
     let v = STerm::Var(0);
@@ -335,7 +434,7 @@ pub proof fn lemma_unfold_facts(a: STerm, d: STerm, m: nat, l: nat)
     let wk = s3(a1, d1, v);
     lemma_hole_free_kids(Kind::Let, wk);
     lemma_closed_kids(Kind::Let, wk, c1);
-    assert forall|i: int| 0 <= i < wk.len() implies s_hole_free(#[trigger] wk[i]) && s_closed_at(wk[i], c1 + binds(Kind::Let, wk.len(), i)) by {
+    assert forall|i: int| 0 <= i < wk.len() implies s_hole_free(#[trigger] wk[i]) && s_cl(wk[i], c1 + binds(Kind::Let, wk.len(), i)) by {
         assert(binds(Kind::Let, 3, i) == 1);
         assert(i == 0 || i == 1 || i == 2);
     }
@@ -355,13 +454,14 @@ pub proof fn lemma_unfold_facts(a: STerm, d: STerm, m: nat, l: nat)
 pub proof fn lemma_subst_piece(p: STerm, m: nat, u: STerm, l: nat)
     requires
         m >= 1, m < HB(),
-        s_ok(p, 0, HB() as nat), s_closed_at(p, l + m),
-        s_ok(u, 0, HB() as nat), s_closed_at(u, (l + m - 1) as nat),
+        s_ok(p, 0, HB() as nat), s_cl(p, l + m),
+        s_ok(u, 0, HB() as nat), s_cl(u, (l + m - 1) as nat),
     ensures
         s_ok(p, (m - 1) as nat, BOUND() as nat), s_ok(p, 0, BOUND() as nat), s_ok(u, 0, BOUND() as nat),
         s_ok(s_open(p, (m - 1) as nat, u, 0), 0, BOUND() as nat),
-        s_closed_at(s_open(p, (m - 1) as nat, u, 0), (l + m - 1) as nat),
+        s_cl(s_open(p, (m - 1) as nat, u, 0), (l + m - 1) as nat),
 {
+    reveal(s_cl);
     let hb = HB() as nat;
     let bb = BOUND() as nat;
     lemma_ok_weaken(p, 0, hb, 0, bb);
@@ -381,24 +481,27 @@ pub proof fn lemma_group_step(kids: Seq<STerm>, kids2: Seq<STerm>, m: nat)
         m >= 1, kids.len() == 2 * m + 1, kids2.len() == 2 * m - 1,
         forall|j: int| 0 <= j < 2 * m - 1 ==> #[trigger] kids2[j] == s_open(kids[if j < m - 1 { j + 1 } else { j + 2 }], (m - 1) as nat, s_unfolded(kids, m), 0),
     ensures
-        s_rr(STerm::Node(Kind::Let, kids), STerm::Node(Kind::Let, kids2)),
+        forall|g: GCtx| #[trigger] s_rr(g, STerm::Node(Kind::Let, kids), STerm::Node(Kind::Let, kids2)),
 {
-    lemma_root_let(kids);
     assert(((kids.len() - 1) / 2) as nat == m);
     assert(s_let_subst(kids, m)->Node_1 =~= kids2);
+    assert(s_let_subst(kids, m) == STerm::Node(Kind::Let, kids2));
+    assert forall|g: GCtx| #[trigger] s_rr(g, STerm::Node(Kind::Let, kids), STerm::Node(Kind::Let, kids2)) by { lemma_root_let(g, kids); }
 }
 
 // every annotation and definition of defs[from..to) is well formed (small bound) and closed at c
+#[verifier::opaque]
 pub open spec fn pieces_ok<'a>(defs: Seq<(&'a str, Rc<Term<'a>>, Rc<Term<'a>>)>, from: int, to: int, c: nat) -> bool {
     forall|q: int| from <= q < to ==> {
         &&& s_ok(view(*(#[trigger] defs[q]).1), 0, HB() as nat)
         &&& s_ok(view(*defs[q].2), 0, HB() as nat)
-        &&& s_closed_at(view(*defs[q].1), c)
-        &&& s_closed_at(view(*defs[q].2), c)
+        &&& s_cl(view(*defs[q].1), c)
+        &&& s_cl(view(*defs[q].2), c)
     }
 }
 
 // defs[from..to) are the corresponding elements of pre with x := u substituted at index j
+#[verifier::opaque]
 pub open spec fn pieces_subst<'a>(defs: Seq<(&'a str, Rc<Term<'a>>, Rc<Term<'a>>)>, pre: Seq<(&'a str, Rc<Term<'a>>, Rc<Term<'a>>)>, from: int, to: int, j: nat, u: STerm) -> bool {
     forall|q: int| from <= q < to ==> {
         &&& view(*(#[trigger] defs[q]).1) == s_open(view(*pre[q].1), j, u, 0)
@@ -408,62 +511,63 @@ pub open spec fn pieces_subst<'a>(defs: Seq<(&'a str, Rc<Term<'a>>, Rc<Term<'a>>
 
 // ---- the conversion check: what suffices, constructor by constructor, for two weak-head normal forms to be
 // convertible --------------------------------------------------------------------------------------------
-pub open spec fn conv_by_case<'a>(w1: Term<'a>, w2: Term<'a>) -> bool {
+pub open spec fn conv_by_case<'a>(g: GCtx, w1: Term<'a>, w2: Term<'a>) -> bool {
     match (w1.variant, w2.variant) {
         (Type, Type) | (Integer, Integer) | (Boolean, Boolean) | (True, True) | (False, False) => true,
         (Variable(_, i1), Variable(_, i2)) => i1 == i2,
-        (Lambda(_, m1, _, b1), Lambda(_, m2, _, b2)) => m1 == m2 && s_conv(view(*b1), view(*b2)),
-        (Pi(_, m1, d1, c1), Pi(_, m2, d2, c2)) => m1 == m2 && s_conv(view(*d1), view(*d2)) && s_conv(view(*c1), view(*c2)),
+        (Lambda(_, m1, _, b1), Lambda(_, m2, _, b2)) => m1 == m2 && s_conv(g_ext(g, 1), view(*b1), view(*b2)),
+        (Pi(_, m1, d1, c1), Pi(_, m2, d2, c2)) => m1 == m2 && s_conv(g, view(*d1), view(*d2)) && s_conv(g_ext(g, 1), view(*c1), view(*c2)),
         (Application(a1, b1), Application(a2, b2)) | (Sum(a1, b1), Sum(a2, b2)) | (Difference(a1, b1), Difference(a2, b2))
         | (Product(a1, b1), Product(a2, b2)) | (Quotient(a1, b1), Quotient(a2, b2)) | (LessThan(a1, b1), LessThan(a2, b2))
         | (LessThanOrEqualTo(a1, b1), LessThanOrEqualTo(a2, b2)) | (EqualTo(a1, b1), EqualTo(a2, b2))
         | (GreaterThan(a1, b1), GreaterThan(a2, b2)) | (GreaterThanOrEqualTo(a1, b1), GreaterThanOrEqualTo(a2, b2))
-            => s_conv(view(*a1), view(*a2)) && s_conv(view(*b1), view(*b2)),
+            => s_conv(g, view(*a1), view(*a2)) && s_conv(g, view(*b1), view(*b2)),
         (IntegerLiteral(x1), IntegerLiteral(x2)) => bigint_val(x1) == bigint_val(x2),
-        (Negation(a1), Negation(a2)) => s_conv(view(*a1), view(*a2)),
-        (If(a1, b1, c1), If(a2, b2, c2)) => s_conv(view(*a1), view(*a2)) && s_conv(view(*b1), view(*b2)) && s_conv(view(*c1), view(*c2)),
+        (Negation(a1), Negation(a2)) => s_conv(g, view(*a1), view(*a2)),
+        (If(a1, b1, c1), If(a2, b2, c2)) => s_conv(g, view(*a1), view(*a2)) && s_conv(g, view(*b1), view(*b2)) && s_conv(g, view(*c1), view(*c2)),
         _ => false,
     }
 }
 
-pub proof fn lemma_conv_by_case<'a>(w1: Term<'a>, w2: Term<'a>, v1: STerm, v2: STerm)
+pub proof fn lemma_conv_by_case<'a>(g: GCtx, w1: Term<'a>, w2: Term<'a>, v1: STerm, v2: STerm)
     requires
-        s_rr(v1, view(w1)), s_rr(v2, view(w2)),
+        s_rr(g, v1, view(w1)), s_rr(g, v2, view(w2)),
         !(w1.variant is Unifier), !(w2.variant is Unifier),
-        conv_by_case(w1, w2),
+        conv_by_case(g, w1, w2),
     ensures
-        s_conv(v1, v2),
+        s_conv(g, v1, v2),
 {
     let k1 = kind_of(w1.variant);
     let k2 = kind_of(w2.variant);
     match (w1.variant, w2.variant) {
         (Variable(_, i1), Variable(_, i2)) => {
-            lemma_conv_erase_eq(view(w1), view(w2));
+            lemma_conv_erase_eq(g, view(w1), view(w2));
         }
         (Lambda(_, m1, d1, b1), Lambda(_, m2, d2, b2)) => {
-            lemma_conv_node2(k1, vr(&d1), vr(&b1), vr(&d2), vr(&b2));
+            lemma_conv_node2(g, k1, vr(&d1), vr(&b1), vr(&d2), vr(&b2));
         }
         (Pi(_, m1, d1, c1), Pi(_, m2, d2, c2)) => {
-            lemma_conv_node2(k1, vr(&d1), vr(&c1), vr(&d2), vr(&c2));
+            lemma_conv_node2(g, k1, vr(&d1), vr(&c1), vr(&d2), vr(&c2));
         }
         (Application(a1, b1), Application(a2, b2)) | (Sum(a1, b1), Sum(a2, b2)) | (Difference(a1, b1), Difference(a2, b2))
         | (Product(a1, b1), Product(a2, b2)) | (Quotient(a1, b1), Quotient(a2, b2)) | (LessThan(a1, b1), LessThan(a2, b2))
         | (LessThanOrEqualTo(a1, b1), LessThanOrEqualTo(a2, b2)) | (EqualTo(a1, b1), EqualTo(a2, b2))
         | (GreaterThan(a1, b1), GreaterThan(a2, b2)) | (GreaterThanOrEqualTo(a1, b1), GreaterThanOrEqualTo(a2, b2)) => {
             assert(k1 == k2);
-            lemma_conv_node2(k1, vr(&a1), vr(&b1), vr(&a2), vr(&b2));
+            assert(binds(k1, 2, 0) == 0 && binds(k1, 2, 1) == 0);
+            lemma_conv_node2(g, k1, vr(&a1), vr(&b1), vr(&a2), vr(&b2));
         }
         (Negation(a1), Negation(a2)) => {
-            lemma_conv_node1(k1, vr(&a1), vr(&a2));
+            lemma_conv_node1(g, k1, vr(&a1), vr(&a2));
         }
         (If(a1, b1, c1), If(a2, b2, c2)) => {
-            lemma_conv_node3(k1, vr(&a1), vr(&b1), vr(&c1), vr(&a2), vr(&b2), vr(&c2));
+            lemma_conv_node3(g, k1, vr(&a1), vr(&b1), vr(&c1), vr(&a2), vr(&b2), vr(&c2));
         }
         _ => {
             // the leaves: equal views
             assert(view(w1) == view(w2)) by { assert(kids_of(w1) =~= kids_of(w2)); }
-            lemma_conv_erase_eq(view(w1), view(w2));
+            lemma_conv_erase_eq(g, view(w1), view(w2));
         }
     }
-    lemma_conv_pre(v1, view(w1), v2, view(w2));
+    lemma_conv_pre(g, v1, view(w1), v2, view(w2));
 }
